@@ -115,8 +115,15 @@ def classes_in(ops):
             yield op[1]
 
 
+def extra_of(case):
+    return case[3] if len(case) > 3 else None
+
+
 def enc(case):
-    mode, base, ops = case
+    """extra (optional 4th component): {'strs': [str,...] (codes 100+i), 'shorts': {name: name},
+    'intended': [(full, want, kf)]}  -- names in the s_name() spelling"""
+    mode, base, ops = case[:3]
+    extra = extra_of(case)
     d = desc()
     cl = sorted(set(classes_in(ops)) | set(classes_in(base)) | {d['module_cls']})
     cparts = []
@@ -124,12 +131,19 @@ def enc(case):
         x = d['classes'][c]
         cparts.append(f"{c}:{int(x['qual'])}{int(x['sn'])}{int(x['gobj'])}:{x['nf']}:{x['nameidx']}:"
                       + '+'.join(str(r['idx']) for r in x['refs']))
-    shorts = sorted({(s_name(n), d['shorts'][s_name(n)]) for n in itertools.chain(names_in(ops), names_in(base))
-                     if s_name(n) in d['shorts']})
+    table = dict(d['shorts'])
+    if extra:
+        table.update(extra['shorts'])
+    shorts = sorted({(s_name(n), table[s_name(n)]) for n in itertools.chain(names_in(ops), names_in(base))
+                     if s_name(n) in table})
     env = '/'.join(cparts) + '|' + str(d['module_cls']) + '|' + '+'.join(map(str, d['special'])) + '|' + \
           ','.join(f'{a}>{b}' for a, b in shorts)
-    if mode == 'C':
-        env += '|' + ';'.join(s_op(o) for o in base)
+    if mode == 'C' or extra:
+        env += '|' + (';'.join(s_op(o) for o in base) if mode == 'C' else '')
+    if extra:
+        used = {s_name(n) for n in itertools.chain(names_in(ops), names_in(base))}
+        env += '|' + ','.join(x.encode('utf-8').hex() for x in extra['strs'])
+        env += '|' + ','.join(f'{a}>{b}>{int(k)}' for a, b, k in extra['intended'] if a in used)
     return ('F' if mode == 'X' else mode) + '#' + env + '#' + ';'.join(s_op(o) for o in ops)
 
 
@@ -178,7 +192,14 @@ def dec(line, mode=None):
     m, env, ops = line.split('#')
     parts = env.split('|')
     base = [p_op(x) for x in parts[4].split(';') if x] if len(parts) > 4 else []
-    return (mode or m[0], base, [p_op(x) for x in ops.split(';') if x])
+    case = (mode or m[0], base, [p_op(x) for x in ops.split(';') if x])
+    if len(parts) > 5 and parts[5]:
+        extra = {'strs': [bytes.fromhex(h).decode('utf-8') for h in parts[5].split(',')],
+                 'shorts': dict(e.split('>') for e in parts[3].split(',') if e),
+                 'intended': [(a, b, c == '1') for a, b, c in
+                              (e.split('>') for e in (parts[6].split(',') if len(parts) > 6 and parts[6] else []))]}
+        case = case + (extra,)
+    return case
 
 
 # ---------------------------------------------------------------- generators
@@ -231,6 +252,9 @@ class Gen:
 
     def local_code(self, c):
         r = self.rnd
+        xl = getattr(self, 'xlocals', None)
+        if xl and r.random() < 0.65:
+            return r.choice(xl)
         if self.d['classes'][c]['sn'] and r.random() < 0.75:
             return r.choice([10, 11, 12, 13, 14, 10, 11])
         return r.choice([5, 6, 7, 8, 9, 10, 14])
@@ -429,7 +453,109 @@ class Gen:
         return self.op_add()
 
 
-def random_case(rnd, maxlen):
+ADV_ALPHABET = ['a', 'b', 'x', 'y', 'T', '|', '||', '@', '&', '&&', ':', '.', 'é', '日本', '`', ' ', '_', '-',
+                'select', 'Q' * 40]
+
+
+def kfadj(ident):
+    """input predicate of known finding C04-KF1 (same as in c04_impl.py)"""
+    return any(c.startswith(('|', ':')) or c.endswith(('&', '@')) or '@@' in c or '@&' in c or '&@' in c for c in ident.split('::'))
+
+
+def kfq(q):
+    """a qualifier is joined to the name with '@': one that itself starts with '&' / '@' makes '@&' / '@@'"""
+    return kfadj(q) or q.startswith(('&', '@'))
+
+
+def adv_ident(rnd, kf):
+    """an identifier a back-quoted name may spell: no '::', not starting with '@', not empty;
+    kf=False: outside the input predicate of C04-KF1; kf=True: inside it"""
+    for _ in range(200):
+        x = ''.join(rnd.choice(ADV_ALPHABET) for _ in range(rnd.choice([1, 2, 2, 3, 3, 4])))
+        if kf and rnd.random() < 0.7:
+            x = rnd.choice(['|', 'a@@', 'a@&', 'a&@']) + x
+        while '::' in x:
+            x = x.replace('::', ':')
+        if not x or x[0] == '@' or x.strip() != x or (x.startswith('__') and x.endswith('__')):
+            continue
+        if kfadj(x) == kf:
+            return x
+    return '|y' if kf else 'x|y'
+
+
+def confusable(x):
+    """identifiers that a faulty (un)mangling could identify with x"""
+    out = [x.replace('|', '||'), x.replace('||', '|'), x.replace('@', '&'), x.replace('&&', '&'),
+           x.replace('|', '::').split('::')[-1], x.replace('@', '|'), x.split('@')[0], x.split('|')[-1]]
+    return [y for y in out if y and y != x and y[0] != '@' and '::' not in y and not kfadj(y)]
+
+
+def adv_items(rnd, n, kf):
+    """(base module, base local, qualifiers): what a derived child name is built from"""
+    items = []
+    for _ in range(n):
+        bl = adv_ident(rnd, kf and rnd.random() < 0.6)
+        quals = []
+        for _ in range(rnd.choice([0, 1, 1, 2])):
+            q = adv_ident(rnd, kf and rnd.random() < 0.4)
+            quals.append(rnd.choice(['m0::', 'm1::', '']) + q)
+        items.append((rnd.choice(['m0', 'm1']), bl, quals))
+        for y in confusable(bl)[:2]:
+            items.append((items[-1][0], y, quals))
+    if kf:
+        items = [it for it in items if kfadj(it[1]) or any(kfq(q) for q in it[2])] or [('m0', '|y', [])]
+    else:
+        items = [it for it in items if not kfadj(it[1]) and not any(kfq(q) for q in it[2])]
+    return items
+
+
+_POOLS = {}
+
+
+def adv_pool(kf):
+    """adversarial names with the REAL specialized name / shortname of each, computed by the
+    implementation (c04_impl.py mangle) for exactly these generated names"""
+    if kf not in _POOLS:
+        rnd = lib.rng('C04pool' + str(kf))
+        items = adv_items(rnd, 120 if not kf else 40, kf)
+        req = [[bm, bl, quals, bm] for bm, bl, quals in items]
+        rc, out, err = lib.impl_python(IMPL, [lib.REPO, 'mangle'], input=json.dumps(req))
+        if rc != 0:
+            raise RuntimeError('c04_impl mangle failed:\n' + err[-2000:])
+        _POOLS[kf] = [dict(bm=bm, bl=bl, quals=quals, spec=r['spec'], short=r['short'])
+                      for (bm, bl, quals), r in zip(items, json.loads(out))]
+    return _POOLS[kf]
+
+
+def make_extra(rnd, kf):
+    """a per-case string table with a few adversarial function-like full names"""
+    d = desc()
+    pool = adv_pool(kf)
+    strs = []
+
+    def code(x):
+        if x in d['strings']:
+            return d['strings'].index(x)
+        if x not in strs:
+            strs.append(x)
+        return 100 + strs.index(x)
+    shorts, intended, xlocals = {}, [], []
+    for it in rnd.sample(pool, min(len(pool), rnd.choice([2, 3, 4]))):
+        sh = it['short']
+        real = f"Q{code(sh[1])}.{code(sh[2])}" if sh[0] == 'Q' else f"U{code(sh[1])}"
+        want = f"Q{code(it['bm'])}.{code(it['bl'])}"
+        k = kfadj(it['bl']) or any(kfq(q) for q in it['quals'])
+        for m in range(d['nmod']):      # the short name does not depend on the module of the full name
+            full = f"Q{m}.{code(it['spec'])}"
+            if real != full:
+                shorts[full] = real
+            intended.append((full, want, k))
+        xlocals.append(code(it['spec']))
+    return {'strs': strs, 'shorts': shorts, 'intended': intended}, xlocals
+
+
+def random_case(rnd, maxlen, adv=None):
+    """adv: None | False (adversarial names outside C04-KF1's predicate) | True (inside it)"""
     mode = 'C' if rnd.random() < 0.15 else 'F'
     base = []
     if mode == 'C':
@@ -452,9 +578,22 @@ def random_case(rnd, maxlen):
     if mode == 'C':
         # classes of base objects must be usable as handles
         g.classes = sorted(set(g.classes) | {op[3] for op in base if op[3] != g.modc})
+    extra = None
+    if adv is not None:
+        extra, g.xlocals = make_extra(rnd, adv)
+        by = {c['name']: c['code'] for c in desc()['classes']}
+        # short names matter for Function / Operator: make sure one of them is in play
+        g.classes = sorted(set(g.classes) | {by[rnd.choice(['Function', 'Operator'])]})
+        for i in g.ids[2:4]:
+            g.cls_of[i] = by[rnd.choice(['Function', 'Operator'])]
     n = rnd.randint(2, maxlen)
     ops = [g.op() for _ in range(n)]
-    return (mode, base, ops)
+    return (mode, base, ops, extra) if extra else (mode, base, ops)
+
+
+def names_case(rnd, kf):
+    """function-level stream: a batch of (base module, base local, qualifiers)"""
+    return [[bm, bl, quals] for bm, bl, quals in adv_items(rnd, rnd.choice([4, 8, 12]), kf)]
 
 
 def mismatch_case(rnd, maxlen):
@@ -539,13 +678,17 @@ def gen_cases(tier):
     ncorpus = len(cases)
     if tier == 'quick':
         cases += list(exhaustive_cases(3))
-        cases += [random_case(rnd, 14) for _ in range(7000)]
+        cases += [random_case(rnd, 14) for _ in range(5500)]
+        cases += [random_case(rnd, 14, adv=False) for _ in range(1500)]
+        cases += [random_case(rnd, 10, adv=True) for _ in range(150)]
         cases += [random_case(rnd, 30) for _ in range(800)]
         cases += [mismatch_case(rnd, 10) for _ in range(500)]
     else:
         cases += list(exhaustive_cases(3))
         cases += list(exhaustive_cases(4, menu_limit=13))
-        cases += [random_case(rnd, 14) for _ in range(120000)]
+        cases += [random_case(rnd, 14) for _ in range(95000)]
+        cases += [random_case(rnd, 14, adv=False) for _ in range(25000)]
+        cases += [random_case(rnd, 10, adv=True) for _ in range(1500)]
         cases += [random_case(rnd, 40) for _ in range(20000)]
         cases += [mismatch_case(rnd, 12) for _ in range(5000)]
     return cases, ncorpus
@@ -570,6 +713,14 @@ class DDLGen:
         self.aliases = {}      # name -> type
         self.globals_ = {}     # name -> kind
         self.modules = {'default'}
+        self.exp = {}          # expectations of the statement being generated (last write wins)
+
+    def expect(self, *e):
+        """('ptr'|'noptr', T, p) / ('obj'|'noobj', n) / ('func'|'nofunc', f): checked by the
+        implementation driver only if the statement is accepted"""
+        kind = e[0]
+        key = ('p',) + e[1:] if kind in ('ptr', 'noptr') else (('f',) + e[1:] if 'func' in kind else ('o',) + e[1:])
+        self.exp[key] = list(e)
 
     # -- pools
     def tname(self, existing=None):
@@ -620,22 +771,23 @@ class DDLGen:
         return out
 
     # -- commands
-    def body_create(self, t, own):
+    def body_create(self, t, own, limit=99):
         r = self.r
         parts = []
         for _ in range(r.choice([0, 1, 1, 2])):
             p = f'p{r.randrange(4)}'
-            if p in own['props'] or p in self.all_props(t):
+            if p in own['props'] or p in self.all_props(t) or len(parts) >= limit:
                 continue
             sc = self.scalar()
             req = 'REQUIRED ' if r.random() < 0.2 else ''
             extra = ' { CREATE CONSTRAINT exclusive; }' if r.random() < 0.15 else ''
             parts.append(f'CREATE {req}PROPERTY {p} -> {sc}{extra};')
+            self.expect('ptr', t, p)
             if sc != 'nosuchscalar':
                 own['props'][p] = sc
         for _ in range(r.choice([0, 0, 1, 1])):
             l = f'l{r.randrange(3)}'
-            if l in own['links']:
+            if l in own['links'] or len(parts) >= limit:
                 continue
             tgt = self.tname(True) if self.types else t
             if r.random() < 0.15:
@@ -643,17 +795,19 @@ class DDLGen:
             multi = 'MULTI ' if r.random() < 0.3 else ''
             lp = ' { CREATE PROPERTY lp0 -> str; }' if r.random() < 0.15 else ''
             parts.append(f'CREATE {multi}LINK {l} -> {tgt}{lp};')
+            self.expect('ptr', t, l)
             if tgt in self.types or tgt == t:
                 own['links'][l] = tgt
-        if own['props'] and r.random() < 0.25:
+        if own['props'] and r.random() < 0.25 and len(parts) < limit:
             p = r.choice(sorted(own['props']))
             parts.append(f'CREATE INDEX ON (.{p});')
             own['idx'].add(p)
-        if own['props'] and r.random() < 0.15:
+        if own['props'] and r.random() < 0.15 and len(parts) < limit and 'c0' not in own['comp']:
             p = r.choice(sorted(own['props']))
             parts.append(f'CREATE PROPERTY c0 := (<str>.{p} ++ "x");')
+            self.expect('ptr', t, 'c0')
             own['comp'].add('c0')
-        if self.annos and r.random() < 0.2:
+        if self.annos and r.random() < 0.2 and len(parts) < limit:
             a = r.choice(sorted(self.annos))
             parts.append(f"CREATE ANNOTATION {a} := 'v';")
             own['ann'].add(a)
@@ -676,6 +830,7 @@ class DDLGen:
         ext = f' EXTENDING {", ".join(bases)}' if bases else ''
         ab = 'ABSTRACT ' if r.random() < 0.1 else ''
         body = (' { ' + ' '.join(parts) + ' }') if parts else ''
+        self.expect('obj', t)
         return f'CREATE {ab}TYPE {t}{ext}{body};'
 
     def c_alter_type(self):
@@ -686,20 +841,25 @@ class DDLGen:
         for _ in range(r.choice([1, 1, 2, 3])):
             x = r.random()
             if x < 0.3:
-                subs += self.body_create(t, d)[:1]
+                subs += self.body_create(t, d, limit=1)
             elif x < 0.42 and d['props']:
                 p = r.choice(sorted(d['props']))
                 subs.append(f'DROP PROPERTY {p};')
+                self.expect('noptr', t, p)
                 if p not in d['idx'] and not d['comp']:
                     d['props'].pop(p, None)
             elif x < 0.5 and d['links']:
                 l = r.choice(sorted(d['links']))
                 subs.append(f'DROP LINK {l};')
+                self.expect('noptr', t, l)
                 d['links'].pop(l, None)
             elif x < 0.62 and d['props']:
                 p = r.choice(sorted(d['props']))
                 q = f'p{r.randrange(4)}'
                 subs.append(f'ALTER PROPERTY {p} {{ RENAME TO {q}; }};')
+                if q != p:
+                    self.expect('noptr', t, p)
+                self.expect('ptr', t, q)
                 if q not in self.all_props(t):
                     d['props'][q] = d['props'].pop(p)
                     if p in d['idx']:
@@ -737,7 +897,7 @@ class DDLGen:
             else:
                 subs.append('CREATE LINK bad -> NoSuchType;')       # fails part-way
         if not subs:
-            subs = self.body_create(t, d)[:1] or ['CREATE PROPERTY p9 -> str;']
+            subs = self.body_create(t, d, limit=1) or ['CREATE PROPERTY p9 -> str;']
         return f'ALTER TYPE {t} {{ ' + ' '.join(subs) + ' };'
 
     def c_rename_type(self):
@@ -752,6 +912,9 @@ class DDLGen:
             self.funcs = {k: (n if v == t else v) for k, v in self.funcs.items()}
             self.aliases = {k: (n if v == t else v) for k, v in self.aliases.items()}
             self.globals_ = {k: (n if v == t else v) for k, v in self.globals_.items()}
+        if n != t:
+            self.expect('noobj', t)
+        self.expect('obj', n)
         return f'ALTER TYPE {t} RENAME TO {n};'
 
     def c_drop_type(self):
@@ -763,6 +926,7 @@ class DDLGen:
             t = self.tname(True)
         if t in self.types and not self.users_of_type(t):
             del self.types[t]
+        self.expect('noobj', t)
         return f'DROP TYPE {t};'
 
     def c_scalar(self):
@@ -774,18 +938,23 @@ class DDLGen:
             body = ' { CREATE CONSTRAINT max_len_value(5); }' if base == 'str' and r.random() < 0.4 else ''
             if n not in self.scalars:
                 self.scalars[n] = base
+            self.expect('obj', n)
             return f'CREATE SCALAR TYPE {n} EXTENDING {base}{body};'
         n = r.choice(sorted(self.scalars))
         if x < 0.8:
             used = any(n in d['props'].values() for d in self.types.values())
             if not used:
                 del self.scalars[n]
+            self.expect('noobj', n)
             return f'DROP SCALAR TYPE {n};'
         m = f'S{r.randrange(3)}'
         if m not in self.scalars:
             self.scalars[m] = self.scalars.pop(n)
             for d in self.types.values():
                 d['props'] = {k: (m if v == n else v) for k, v in d['props'].items()}
+        if m != n:
+            self.expect('noobj', n)
+        self.expect('obj', m)
         return f'ALTER SCALAR TYPE {n} RENAME TO {m};'
 
     def c_anno(self):
@@ -794,15 +963,18 @@ class DDLGen:
         if a in self.annos and r.random() < 0.6:
             if not any(a in d['ann'] for d in self.types.values()):
                 self.annos.discard(a)
+            self.expect('noobj', a)
             return f'DROP ABSTRACT ANNOTATION {a};'
         self.annos.add(a)
+        self.expect('obj', a)
         return f'CREATE ABSTRACT ANNOTATION {a};'
 
     def c_func(self):
         r = self.r
         f = f'f{r.randrange(2)}'
-        if f in self.funcs and r.random() < 0.5:
+        if f in self.funcs and r.random() < 0.7:
             pt = self.funcs.pop(f)
+            self.expect('nofunc', f)
             return f'DROP FUNCTION {f}(x: {pt});'
         if self.types and r.random() < 0.6:
             pt = self.tname(True)
@@ -813,6 +985,7 @@ class DDLGen:
             pt, body, ret = 'int64', '(x + 1)', 'int64'
         if f not in self.funcs and (pt in self.types or pt == 'int64'):
             self.funcs[f] = pt
+        self.expect('func', f)
         return f'CREATE FUNCTION {f}(x: {pt}) -> {ret} USING {body};'
 
     def c_alias(self):
@@ -857,6 +1030,11 @@ class DDLGen:
         return 'CREATE MODULE m1;'
 
     def cmd(self):
+        self.exp = {}
+        st = self.cmd_()
+        return [st, list(self.exp.values())] if self.exp else st
+
+    def cmd_(self):
         x = self.r.random()
         if not self.types or x < 0.22:
             return self.c_create_type()
@@ -879,9 +1057,78 @@ class DDLGen:
         return self.c_module()
 
 
-def ddl_history(rnd, maxlen):
+TOKEN = re.compile(r'\b(TP|T[0-5]|p[0-39]|l[0-2]|lp0|S[0-2]|a[01]|f[01]|A[01]|g[01]|c0|ap0|n[1-3])\b')
+TOKENS = (['TP'] + [f'T{i}' for i in range(6)] + ['p0', 'p1', 'p2', 'p3', 'p9', 'l0', 'l1', 'l2', 'lp0']
+          + ['S0', 'S1', 'S2', 'a0', 'a1', 'f0', 'f1', 'A0', 'A1', 'g0', 'g1', 'c0', 'ap0', 'n1', 'n2', 'n3'])
+
+
+def bq(x):
+    return '`' + x.replace('`', '``') + '`'
+
+
+def ident_map(rnd, style):
+    """logical token -> the identifier spelled in the DDL.  'plain': itself.  'adv': most tokens
+    become back-quoted adversarial identifiers (|, ||, @, &, :, keywords, non-ASCII, long), with
+    siblings that a faulty (un)mangling would confuse; 'kf': additionally a few identifiers
+    inside the input predicate of known finding C04-KF1"""
+    if style == 'plain':
+        return {}
+    m, used = {}, set(TOKENS)
+
+    def take(x):
+        if x in used or len(x.encode()) > 60:
+            return False
+        used.add(x)
+        return True
+    groups = [['n1', 'n2', 'n3'], ['p0', 'p1', 'p2'], ['TP', 'T0', 'T1'], ['l0', 'l1'], ['a0', 'a1'],
+              ['f0', 'f1'], ['S0', 'S1'], ['p3', 'p9', 'lp0'], ['T2', 'T3'], ['A0', 'g0', 'c0', 'ap0']]
+    for gi, grp in enumerate(groups):
+        if gi > 0 and rnd.random() < 0.35:
+            continue
+        base = adv_ident(rnd, False)
+        fam = [base] + confusable(base) + [adv_ident(rnd, False) for _ in range(3)]
+        if style == 'kf' and (gi == 0 or rnd.random() < 0.3):
+            fam = rnd.choice([['|y', 'y', '||y'], ['a@@b', 'a&b', 'a@b'], [':x', 'x', '|x'], ['a@&b', 'a&&b', 'a&b'],
+                              [adv_ident(rnd, True), adv_ident(rnd, False), adv_ident(rnd, True)]])
+        for tok in grp:
+            x = next((y for y in fam if take(y)), None)
+            if x is not None:
+                m[tok] = x
+    return m
+
+
+def apply_idents(item, m):
+    if not m:
+        return item
+    if isinstance(item, str):
+        return TOKEN.sub(lambda mo: bq(m[mo.group(1)]) if mo.group(1) in m else mo.group(1), item)
+    st, exp = item[0], item[1]
+    out = [apply_idents(st, m), [[e[0]] + [m.get(x, x) for x in e[1:]] for e in exp]]
+    return out + item[2:]
+
+
+def st_text(item):
+    return item if isinstance(item, str) else item[0]
+
+
+def h_items(H):
+    return H['h'] if isinstance(H, dict) else H
+
+
+def ddl_history(rnd, maxlen, style='plain'):
     g = DDLGen(rnd)
-    return ['CREATE MODULE default;'] + [g.cmd() for _ in range(rnd.randint(3, maxlen))]
+    items = ['CREATE MODULE default;']
+    if style != 'plain':
+        # sibling probe: children with confusable names under one owner, all must be created
+        # and each found under its own name
+        items.append(['CREATE TYPE TP { CREATE PROPERTY n1 -> str; CREATE PROPERTY n2 -> int64; CREATE LINK n3 -> TP; };',
+                      [['obj', 'TP'], ['ptr', 'TP', 'n1'], ['ptr', 'TP', 'n2'], ['ptr', 'TP', 'n3']], True])
+        g.types['TP'] = dict(props={'n1': 'str', 'n2': 'int64'}, links={'n3': 'TP'}, bases=[], idx=set(),
+                             ann=set(), comp=set())
+    items += [g.cmd() for _ in range(rnd.randint(3, maxlen))]
+    m = ident_map(rnd, style)
+    items = [apply_idents(it, m) for it in items]
+    return {'k': style == 'kf', 'style': style, 'h': items}
 
 
 DDL_CORPUS = [
@@ -898,8 +1145,10 @@ DDL_CORPUS = [
 def gen_ddl(tier):
     rnd = lib.rng('C04ddl')
     hs = [list(h) for h in DDL_CORPUS]
-    n = 240 if tier == 'quick' else 4000
-    hs += [ddl_history(rnd, 15) for _ in range(n)]
+    n = 120 if tier == 'quick' else 3600
+    for j in range(n):
+        style = 'kf' if j % 12 == 11 else ('adv' if j % 12 in (1, 3, 5, 7, 9) else 'plain')
+        hs.append(ddl_history(rnd, 13 if tier == 'quick' else 15, style))
     return hs
 
 
@@ -932,7 +1181,7 @@ def run_ddl_impl(histories, nproc=16):
 
 def ddl_nontrivial(h, res):
     st = res.split(' !')[0].split('#')[0].split('|')
-    acc = [c for c, s_ in zip(h, st) if s_ == 'ok']
+    acc = [st_text(c) for c, s_ in zip(h_items(h), st) if s_ == 'ok']
     return (len(acc) >= 4 and len(acc) < len(st)
             and any(c.startswith('DROP') or 'RENAME' in c or 'DROP ' in c for c in acc))
 
@@ -944,7 +1193,8 @@ def ddl_stats(hs, res):
     acc = rej = 0
     for h, r in zip(hs, res):
         ss = r.split(' !')[0].split('#')[0].split('|')
-        for c, x in zip(h, ss):
+        for c, x in zip(h_items(h), ss):
+            c = st_text(c)
             st[x] = st.get(x, 0) + 1
             k = ' '.join(c.split()[:2])
             a_, b_ = kinds.get(k, (0, 0))
@@ -961,9 +1211,17 @@ def ddl_stats(hs, res):
                 'a ChainedSchema over the real std schema); MONITORS ONLY (no model correspondence): indexes of '
                 'the user/global FlatSchemas recomputed from scratch, every reference field of every user '
                 'object resolves, get_by_id/get/get_name/get_referrers agree with object data, dropped objects '
-                'unreachable, rejected statement => identical schema, earlier schema values frozen (pickled maps)',
+                'unreachable, rejected statement => identical schema, earlier schema values frozen (pickled maps); '
+                'owned children: listed under their OWN key in the owner refdict (pointers, constraints, indexes, '
+                'annotations, policies), siblings never collide, back-reference = owner, derived child name names '
+                'the owner and re-encodes to itself, no orphan with source/subject set; per statement the '
+                'generator\'s expectations (getptr(name) finds the pointer it created under exactly that name, '
+                'dropped/renamed names are gone); 5 of 12 histories use back-quoted adversarial identifiers '
+                '(| || @ & : keywords non-ASCII long, with confusable siblings), 1 of 12 identifiers inside the '
+                'input predicate of known finding C04-KF1',
         'histories': len(hs), 'statements': acc + rej, 'accepted': acc, 'rejected': rej,
-        'distinct_nontrivial': len({tuple(h) for h, r in zip(hs, res) if ddl_nontrivial(h, r)}),
+        'distinct_nontrivial': len({json.dumps(h) for h, r in zip(hs, res) if ddl_nontrivial(h, r)}),
+        'identifier_styles': {k: sum(1 for h in hs if isinstance(h, dict) and h.get('style') == k) for k in ('plain', 'adv', 'kf')},
         'nontrivial_rule': '>= 4 accepted statements, >= 1 rejected, an accepted DROP or RENAME',
         'status_kinds': st,
         'statement_kinds_accepted_rejected': {k: list(v) for k, v in sorted(kinds.items())},
@@ -975,17 +1233,19 @@ def ddl_stats(hs, res):
     }
 
 
-def shrink_ddl(h, tag):
+def shrink_ddl(H, tag):
+    wrap = (lambda items: dict(H, h=items)) if isinstance(H, dict) else (lambda items: items)
+    h = h_items(H)
     for _ in range(40):
-        cands = [h[:i] + h[i + 1:] for i in range(1, len(h))]
+        cands = [wrap(h[:i] + h[i + 1:]) for i in range(1, len(h))]
         if not cands:
             break
         res = run_ddl_impl(cands)
         nxt = next((c for c, r in zip(cands, res) if tag in mon_tags(r)), None)
         if nxt is None:
             break
-        h = nxt
-    return h
+        h = h_items(nxt)
+    return wrap(h)
 
 # ---------------------------------------------------------------- running
 def run_impl(lines):
@@ -1009,18 +1269,19 @@ def mon_tags(r):
 
 def candidates(case):
     """one-step reductions: drop an op; drop a field of an add/update"""
-    mode, base, ops = case
+    mode, base, ops = case[:3]
+    tail = case[3:]
     out = []
     for i in range(len(ops)):
         if len(ops) > 1:
-            out.append((mode, base, ops[:i] + ops[i + 1:]))
+            out.append((mode, base, ops[:i] + ops[i + 1:]) + tail)
     for i, op in enumerate(ops):
         if op[0] in ('A', 'U'):
             fs = op[4] if op[0] == 'A' else op[3]
             for j in range(len(fs)):
                 nfs = fs[:j] + fs[j + 1:]
                 nop = op[:4] + (nfs,) if op[0] == 'A' else op[:3] + (nfs,)
-                out.append((mode, base, ops[:i] + [nop] + ops[i + 1:]))
+                out.append((mode, base, ops[:i] + [nop] + ops[i + 1:]) + tail)
     return out
 
 
@@ -1108,13 +1369,34 @@ def c_env(line):
 
 
 def coq_case(case):
-    mode, base, ops = case
+    mode, base, ops = case[:3]
     line = enc(case)
     ol = '[' + '; '.join(c_op(o) for o in ops) + ']'
     if mode == 'C':
         bl = '[' + '; '.join(c_op(o) for o in base) + ']'
         return f'ser_ch_trace {c_env(line)} {bl} {ol}'
     return f'ser_trace {c_env(line)} {ol}'
+
+
+def known_for(known, tags):
+    """the known finding that accounts for ALL failed monitors of a case (site = prefix of the
+    monitor names), else None"""
+    for k in known:
+        site = k.get('site')
+        if site and tags and all(t.startswith(site) for t in tags):
+            return k
+    return None
+
+
+def gen_names(tier):
+    rnd = lib.rng('C04names')
+    n = 1500 if tier == 'quick' else 30000
+    return [names_case(rnd, j % 15 == 14) for j in range(n)]
+
+
+def run_names(batches):
+    return lib.parallel_lines([lib.PY, IMPL, lib.REPO, 'names'], [json.dumps(b) for b in batches],
+                              env=lib.impl_env())
 
 
 # ---------------------------------------------------------------- run
@@ -1184,21 +1466,48 @@ def run(tier):
     ddl_fail = [i for i, r in enumerate(ddl_res) if ' !' in r]
     T['layer2_ddl'] = _t.time()
 
+    # ---- name mangling, function level (direct monitors on edb/schema/name.py)
+    nm_batches = gen_names(tier)
+    nm_res = run_names(nm_batches)
+    nm_fail = [i for i, r in enumerate(nm_res) if ' !' in r]
+    T['names'] = _t.time()
+
     # ---- verdict
     known = lib.known_findings(PROP)
     reported = 0
     seen_tags = set()
+    for i in sorted(nm_fail, key=lambda i: len(nm_batches[i])):
+        tags = mon_tags(nm_res[i])
+        kf = known_for(known, tags)
+        if kf:
+            rep.known_finding(kf['id'], kf.get('what', ''))
+            continue
+        if tags[0] in seen_tags or reported >= 2:
+            continue
+        seen_tags.add(tags[0])
+        reported += 1
+        n = int(nm_res[i].split(' !')[1].split('@')[1])
+        item = nm_batches[i][n]
+        small = [x for x in nm_batches[i] if x[2] == item[2]][:6] if 'collision' in tags[0] else [item]
+        rep.violation(f'monitor {tags} failed on edb.schema.name (mangle_name / unmangle_name / '
+                      'get_specialized_name / shortname_from_fullname / quals_from_fullname)',
+                      {'names_batch': small, 'impl_result': run_names([small])[0],
+                       'meaning': 'items are (base module, base local name, qualifiers); the child name '
+                                  'built from them must decode back to them and differ for different items',
+                       'how': f'PYTHONPATH={lib.REPO}:/verif/harness /venv/bin/python harness/impl/c04_impl.py '
+                              f'{lib.REPO} names <<< \'<json list of items>\''})
+    reported = 0
     for i in sorted(mon_fail, key=lambda i: len(cases[i][2])):
         if reported >= 3:
             break
         tags = mon_tags(impl[i])
-        if tags[0] in seen_tags:
-            continue
-        seen_tags.add(tags[0])
-        kf = next((k for k in known if k.get('site') in tags), None)
+        kf = known_for(known, tags)
         if kf:
             rep.known_finding(kf['id'], kf.get('what', ''))
             continue
+        if tags[0] in seen_tags:
+            continue
+        seen_tags.add(tags[0])
         small = shrink(cases[i], lambda cs: [tags[0] in mon_tags(r) for r in run_impl([enc(c) for c in cs])])
         rep.violation(f'monitor {tags} failed on the real FlatSchema/ChainedSchema',
                       {'case': enc(small), 'mode': small[0], 'original_case': lines[i],
@@ -1214,7 +1523,7 @@ def run(tier):
     nrep = 0
     for i in sorted(ddl_fail, key=lambda i: len(ddl_hist[i])):
         tags = mon_tags(ddl_res[i])
-        kf = next((k for k in known if k.get('site') in tags), None)
+        kf = known_for(known, tags)
         if kf:
             rep.known_finding(kf['id'], kf.get('what', ''))
             continue
@@ -1238,7 +1547,7 @@ def run(tier):
         rep.violation('tie broken: the real schema classes no longer match what the case lines / '
                       'the model assume: ' + impl[i][:300],
                       {'broken': 'class table / harness', 'case': lines[i], 'impl_result': impl[i]}, False)
-    if not [i for i in mon_fail if not any(k.get('site') in mon_tags(impl[i]) for k in known)]:
+    if not [i for i in mon_fail if not known_for(known, mon_tags(impl[i]))]:
         if tie_bad:
             rep.violation('tie broken: classes whose reducible fields differ from their object-reference '
                           f'fields, or whose name field is a reference field: {tie_bad}',
@@ -1316,6 +1625,19 @@ def run(tier):
         'stub_installer': d['stubs'],
         'schema_py_sha256': d['schema_py_sha'],
         'layer2_ddl': ddl_stats(ddl_hist, ddl_res),
+        'name_mangling': {
+            'what': 'direct monitors on edb/schema/name.py over generated (module, local name, qualifiers) items '
+                    '(alphabet: | || @ & && : . back-quote, space, keywords, non-ASCII, 40-char runs; every item with '
+                    'the siblings a faulty (un)mangling would confuse): unmangle(mangle(x)) == x, '
+                    'shortname_from_fullname / quals_from_fullname of the specialized child name give back what it '
+                    'was built from (also one level deeper), and the construction is injective within a batch',
+            'batches': len(nm_batches), 'items': sum(len(b) for b in nm_batches),
+            'batches_inside_KF1_predicate': sum(1 for j in range(len(nm_batches)) if j % 15 == 14),
+            'failing_batches': len(nm_fail),
+            'failing_batches_not_explained_by_a_known_finding':
+                len([i for i in nm_fail if not known_for(known, mon_tags(nm_res[i]))]),
+            'layer1_cases_with_generated_adversarial_names': len([c for c in cases if extra_of(c)]),
+        },
         'stage_seconds': {k: round(T[k] - T[p_], 1) for p_, k in zip(list(T), list(T)[1:])},
         'trusted_base': [
             'Coq 8.16.1 kernel (coqc; coqchk in the thorough tier); vm_compute only in cases.v evaluation',
@@ -1353,9 +1675,17 @@ def replay(path):
         res = run_ddl_impl([h], nproc=1)[0]
         st = res.split(' !')[0].split('#')[0].split('|')
         print('DDL history through the real delta commands (no model: monitors only):')
-        for c, x in zip(h, st):
-            print(f'   {x:32s} {c}')
-        print('monitors failed:', mon_tags(res) or 'none')
+        for c, x in zip(h_items(h), st):
+            print(f'   {x:32s} {st_text(c)}')
+            if not isinstance(c, str) and c[1]:
+                print(f'   {"":32s}   expected if accepted: {c[1]}')
+        print('monitors failed:', [t for t in res.split(' !')[1:]] or 'none')
+        return 0
+    if 'names_batch' in r:
+        res = run_names([r['names_batch']])[0]
+        for it in r['names_batch']:
+            print('   item (module, local, qualifiers):', it)
+        print('monitors failed:', [t for t in res.split(' !')[1:]] or 'none')
         return 0
     line = r.get('case') or r.get('original_case')
     mode = r.get('mode') or line[0]
